@@ -356,6 +356,8 @@ def d3_int_normalised(ctx, ff):
         def walk(x):
             if isinstance(x, ast.Call) and (dotted(x.func) or '') == 'int':
                 return
+            if isinstance(x, ast.Compare):
+                return              # a test (`p is None`, `p > q`) carries no value into the arithmetic
             if isinstance(x, ast.Name):
                 out.add(x.id)
             for c in ast.iter_child_nodes(x):
